@@ -570,8 +570,13 @@ class XsdElement(XsdComponent, ParticleMixin,
 
     def check_dynamic_context(self, elem: ElementType, validation: str,
                               context: ValidationContext) -> None:
+        base_url = context.source.base_url
+        if base_url is None and self.maps.settings.allow == 'sandbox':
+            # Without a base the hinted location would be the sandbox of itself
+            base_url = self.maps.validator.base_url
+
         for ns, url in iter_schema_location_hints(elem):
-            if self.maps.get_schema(ns, url, context.source.base_url) is not None:
+            if self.maps.get_schema(ns, url, base_url) is not None:
                 continue
 
             if ns in iter_schema_namespaces(context.source.root, elem):
@@ -582,10 +587,10 @@ class XsdElement(XsdComponent, ParticleMixin,
                 with self.maps.protect_status():
                     if ns in self.maps.namespaces:
                         schema = self.maps.namespaces[ns][0]
-                        schema.include_schema(url, context.source.base_url)
+                        schema.include_schema(url, base_url)
                     else:
                         schema = self.schema
-                        schema.import_schema(ns, url, context.source.base_url)
+                        schema.import_schema(ns, url, base_url)
                     schema.clear()
                     schema.build()
 
@@ -1491,18 +1496,23 @@ class Xsd11Element(XsdElement):
 
     def check_dynamic_context(self, elem: ElementType, validation: str,
                               context: ValidationContext) -> None:
+        base_url = context.source.base_url
+        if base_url is None and self.maps.settings.allow == 'sandbox':
+            # Without a base the hinted location would be the sandbox of itself
+            base_url = self.maps.validator.base_url
+
         for ns, url in iter_schema_location_hints(elem):
-            if self.maps.get_schema(ns, url, context.source.base_url) is not None:
+            if self.maps.get_schema(ns, url, base_url) is not None:
                 continue
 
             try:
                 with self.maps.protect_status():
                     if ns in self.maps.namespaces:
                         schema = self.maps.namespaces[ns][0]
-                        schema.include_schema(url, context.source.base_url)
+                        schema.include_schema(url, base_url)
                     else:
                         schema = self.schema
-                        schema.import_schema(ns, url, context.source.base_url)
+                        schema.import_schema(ns, url, base_url)
                     schema.clear()
                     schema.build()
 
